@@ -104,6 +104,12 @@ def _mk(spec):
     N = 2 if spec["cls"] == "AugmentedFSSH" else spec["N"]
     model = SynthModel(rng, N, spec["n"], scale=0.1, gap=0.0, mass=10 ** rng.uniform(0, 1.5, size=spec["n"]))
     cls = getattr(mudslide, spec["cls"])
+    if spec.get("cold"):
+        # slow, on the lowest state, with tiny thresholds: a hop is attempted at nearly every step and refused (frustrated-hop
+        # events are logged before AND after the clone is taken)
+        steps = spec["k"] + spec["more"] + 5
+        return cls(model, rng.normal(size=spec["n"]) * 0.5, rng.normal(size=spec["n"]) * 0.3 + 0.3, 0, dt=0.5, max_steps=spec["k"],
+                   seed_sequence=spec["seed"], queue=queue.Queue(), zeta_list=[1e-7] * steps)
     return cls(model, rng.normal(size=spec["n"]) * 0.5, rng.normal(size=spec["n"]) * 2 + 1, 0, dt=0.5, max_steps=spec["k"],
                seed_sequence=spec["seed"], queue=queue.Queue())
 
@@ -161,6 +167,7 @@ def oracle_clone(args):
 def _clone_check(spec, t):
     t.simulate()
     n0 = len(t.tracer)
+    ev0 = sum(len(v) for v in getattr(t.tracer, "events", {}).values()) if isinstance(getattr(t.tracer, "events", None), dict) else 0
     c = t.clone()
     problems = []
     sh = [p for p in _shared(t, c) if p not in (".queue",)]
@@ -178,6 +185,18 @@ def _clone_check(spec, t):
         problems.append("the clone's continuation differs from the original's (%d vs %d snapshots)" % (len(b), len(a)))
     if hasattr(t.tracer, "hops") and not _same(list(t.tracer.hops), list(c.tracer.hops)):
         problems.append("hop events differ between clone and original")
+    ev1 = 0
+    if isinstance(getattr(t.tracer, "events", None), dict) and isinstance(getattr(c.tracer, "events", None), dict):
+        # original and clone did the same thing: the same events, each logged once in each of the two stores
+        ea = {k: [dict(e) for e in v] for k, v in t.tracer.events.items()}
+        eb = {k: [dict(e) for e in v] for k, v in c.tracer.events.items()}
+        ev1 = sum(len(v) for v in ea.values())
+        if not _same([ea], [eb]):
+            problems.append("the events logged by the clone differ from the original's")
+        for k, v in ea.items():
+            tms = [(e.get("time"), e.get("from"), e.get("to")) for e in v]
+            if len(set(tms)) != len(tms):
+                problems.append("an event of kind %r is logged twice in one store: %r" % (k, tms[:6]))
     if len(c.tracer) != len(t.tracer):
         problems.append("trace lengths differ")
     if spec.get("store") == "yaml":
@@ -190,7 +209,8 @@ def _clone_check(spec, t):
                 on_disk = len(list(load_log(os.path.join(o.tracer.location, o.tracer.main_log))))
                 if on_disk != len(o.tracer):
                     problems.append("log on disk holds %d snapshots, the trace object recorded %d" % (on_disk, len(o.tracer)))
-    return not problems, {"continued_snapshots": len(a), "problems": problems[:3]}, {"problems": []}, "; ".join(problems[:2]) or "ok"
+    return not problems, {"continued_snapshots": len(a), "events_at_clone": ev0, "events_at_end": ev1, "problems": problems[:3]}, \
+        {"problems": []}, "; ".join(problems[:2]) or "ok"
 
 
 @safe_oracle
@@ -326,14 +346,26 @@ def run(ctx):
         ctx.count("zeta_order")
         if not ok:
             ctx.oracle_fail("threshold-order", "zeta_order", a, obs, req, text)
-    for i in range(ctx.budget(15, 300)):
+    nclone, i, informative = ctx.budget(15, 300), -1, 0
+    while True:
+        i += 1
+        if i >= nclone and (informative >= 3 or i >= nclone + ctx.budget(24, 100)):
+            break
         cls = ["TrajectorySH", "TrajectoryCum", "Ehrenfest", "AugmentedFSSH", "AdiabaticMD"][i % 5]
         spec = dict(cls=cls, N=int(rng.integers(2, 4)), n=int(rng.integers(1, 3)), model_seed=int(rng.integers(1, 10 ** 6)),
                     seed=int(rng.integers(1, 2 ** 31)), k=int(rng.integers(1, 13)), more=int(rng.integers(3, 12)))
         if i % 3 == 2 and cls != "AugmentedFSSH":
             spec["store"] = "yaml"
             spec["pitch"] = int(rng.integers(1, 6))
+        if i >= nclone:
+            # directed: clones taken from a trajectory that has ALREADY logged events and goes on logging them
+            spec.update(cls=["TrajectorySH", "TrajectoryCum"][i % 2], cold=True, k=int(rng.integers(15, 40)), more=int(rng.integers(15, 40)))
+            spec.pop("store", None)
+            spec.pop("pitch", None)
         ok, obs, req, text = oracle_clone(spec)
+        if obs.get("events_at_clone", 0) >= 1 and obs.get("events_at_end", 0) > obs.get("events_at_clone", 0):
+            informative += 1
+            ctx.count("clones_taken_with_events_logged_before_and_after")
         ctx.case(("clone", cls, spec["k"], spec.get("store", "memory")), {"check": "clone", "spec": spec})
         ctx.count("clone:" + cls)
         if not ok:
